@@ -33,7 +33,7 @@ var genRules = map[string]string{
 	"C08": "unmarshal: the C06 encodings damaged by truncation, bit flips, continuation-bit inflation, junk, huge declared lengths, dangling continuation bytes: no panic, allocation sampled with runtime.MemStats, equality whenever both the generated code and dynamicpb accept",
 	"C09": "histories: per message type, 4-12 steps drawn from reflective field mutation (grow / shrink / set / clear), Size, the runtime's own Size+Marshal, Unmarshal of another message (half of them carrying an unknown field), Reset, Clone, and Marshal — each of these through the generated method, through csproto (Size, Marshal, Unmarshal, Reset, Clone) or through csproto.GrpcCodec — each Marshal compared with marshaling a fresh deep copy (obtained through the runtime's encoder) of the current contents, and every earlier Marshal result re-read after the later calls; helpers: messages whose optional fields are assigned through csproto.Bool/Int32/…/String must not share memory",
 	"C10": "clobber: safe-option variants only; after generated Unmarshal the input buffer is overwritten with 0xff and the message is read back through the runtime's encoder before and after",
-	"C12": "extensions: for every generated message type with extension ranges (scalar kinds, enum, string/bytes, message) and each of gogo / golang v1 API / google v2: random histories of Set/Clear/ClearAll with a full observation (Has, Get, Range, ExtensionFieldNumber, marshaled bytes) after every step, the same history driven through the owning runtime's own API on a twin message, and an abstract map as the specification; descriptors of the other runtime family must be refused without modifying the message",
+	"C12": "extensions: for every generated message type with extension ranges (scalar kinds, enum, string/bytes, message) and each of gogo / golang v1 API / google v2: random histories of Set/Clear/ClearAll with a full observation (Has, Get, Range, ExtensionFieldNumber, marshaled bytes) after every step, the same history driven through the owning runtime's own API on a twin message, and an abstract map as the specification; descriptors of the other runtime family must be refused without modifying the message; descriptors of the SAME runtime that extend another message (same extension numbers, other types): every answer and the resulting message equal to the owning runtime's on a twin; every history and every mismatch probe is also run through the Lean model of the dispatcher (C12.runCs on the abstract store) and compared answer by answer; the corpus declares bounded extension ranges, single-number ranges, several ranges per message, ranges between ordinary fields and `to max`, with extensions at the first and the last number of every range and at 2^29-1, and three extendees sharing numbers",
 	"C17": "required: proto2 types with required fields (top level, nested, repeated element, map value, oneof member); random subsets left unset; Marshal must fail exactly when dynamicpb's CheckInitialized fails; Unmarshal must fail exactly when the reference reports a missing required field; the empty message and the empty input included",
 }
 
